@@ -11,7 +11,9 @@ Import ListNotations.
 From PV Require Import Exchange.Arith Exchange.Split Exchange.Fulfill Exchange.Settle Exchange.SettleSpec
   Proofs.ArithProofs Proofs.SplitProofs Proofs.FulfillProofs Proofs.SettleProofs
   Proofs.FulfillSteps Proofs.FulfillShape Proofs.FulfillSums
-  Proofs.SettleRefine Proofs.SettleFills Proofs.SettleHistory.
+  Proofs.SettleRefine Proofs.SettleFills Proofs.SettleHistory
+  Exchange.SurplusSpec Exchange.SettleMulti Proofs.Surplus Proofs.SettleMultiProofs Proofs.OrderDep Proofs.OrderDepWitness.
+From Coq Require Import Permutation.
 Open Scope Z_scope.
 
 (** A settlement that BuildSettlement accepts: every filled ask order (fully or partially filled)
@@ -332,6 +334,242 @@ Theorem C01_history : forall cfg st ops,
 Proof. exact history_refines. Qed.
 Print Assumptions C01_history.
 
+(** ** Who gets the price improvement (Exchange/SurplusSpec.v, Proofs/Surplus.v)
+
+    When the bids together pay more than the asks ask for, the surplus [L] goes to the sellers
+    by this rule, which the leftover loop of allocatePrice is PROVED to compute: ask i (with
+    [af_i] of the [TA] assets filled) first gets its floor share q_i = L * af_i / TA; what is then
+    left, R = L - sum q_i (fewer units than there are asks), is handed out in the order of the ask
+    ids in the request, ask i taking min (max q_i 1) (what is left).  [fa] / [fb] are the reported
+    fills of the asks / bids in request order ([fo_order] of the split order is its FILLED part);
+    every bid pays exactly its price, whatever the order of the bids. *)
+Theorem C01_surplus_distribution : forall asks bids lk s,
+  build asks bids lk = Ok s -> NoDup (map o_id (asks ++ bids)) ->
+  Forall valid_order asks -> Forall valid_order bids ->
+  exists fa fb : list filled,
+    Permutation (fills_of s) (fa ++ fb) /\
+    map (fun f => o_id (fo_order f)) fa = map o_id asks /\
+    map (fun f => o_id (fo_order f)) fb = map o_id bids /\
+    Forall (fun f => o_ask (fo_order f) = true) fa /\ Forall (fun f => o_ask (fo_order f) = false) fb /\
+    Forall (fun f => fo_price f = o_price (fo_order f)) fb /\
+    let L := sumz (fun f => o_price (fo_order f)) fb - sumz (fun f => o_price (fo_order f)) fa in
+    0 <= L /\
+    map fo_price fa = zip_add (map (fun f => o_price (fo_order f)) fa)
+                              (surplus L (map (fun f => o_assets (fo_order f)) fa)).
+Proof. exact build_surplus. Qed.
+Print Assumptions C01_surplus_distribution.
+
+(** ... all of the surplus is handed out, entry i is its floor share plus a remainder part
+    [e_i] with 0 <= e_i <= max q_i 1 and e_i <= R, and 0 <= R < number of asks. *)
+Theorem C01_surplus_shape : forall L afs,
+  0 <= L -> Forall (fun a => 0 < a) afs -> afs <> [] ->
+  sumz (fun z => z) (surplus L afs) = L /\
+  let TA := sumz (fun z => z) afs in
+  let R := L - sumz (fun z => z) (map (floor_share L TA) afs) in
+  0 <= R < Z.of_nat (length afs) /\
+  exists es, surplus L afs = zip_add (map (floor_share L TA) afs) es /\ sumz (fun z => z) es = R /\
+    Forall2 (fun e af => 0 <= e <= Z.max (floor_share L TA af) 1 /\ e <= R) es afs.
+Proof. intros L afs H1 H2 H3. split; [exact (surplus_sum L afs H1 H2 H3)|exact (surplus_entry L afs H1 H2 H3)]. Qed.
+Print Assumptions C01_surplus_shape.
+
+(** ** Several markets, creation fees, governance-changed splits, send restrictions
+       (Exchange/SettleMulti.v, Proofs/SettleMultiProofs.v)
+
+    [mstep_spec] (Proofs/SettleMultiProofs.v), by kind of operation, with [cfg] = the fee table of
+    the market named in the request and the exchange splits IN FORCE at that moment: a market
+    settlement / FillBids / FillAsks satisfies the single-market specification [step_spec] above
+    for [cfg], every order it names belongs to that market, and an order creation fee is collected
+    on its own ([after_cfee]: payer -fee, market +fee - share, fee collector +share, share =
+    ceiling on THAT fee); a creation moves only its creation fee and places the hold; a params /
+    flag / sanction change moves nothing. *)
+Theorem C01_multi_history : forall w ms ops,
+  store_ok (st_orders (ms_st ms)) -> Forall mop_ok ops ->
+  forall pre o post, ops = pre ++ o :: post ->
+    let ms1 := mrun w ms pre in
+    let ms2 := fst (mstep w ms1 o) in
+    (snd (mstep w ms1 o) = true -> mstep_spec w ms1 o ms2) /\
+    (snd (mstep w ms1 o) = false -> ms2 = ms1) /\
+    (forall d, total (st_bal (ms_st ms2)) d = total (st_bal (ms_st ms)) d).
+Proof. exact mhistory_refines. Qed.
+Print Assumptions C01_multi_history.
+
+(** A settlement or fill that names an order of ANOTHER market is refused and changes nothing. *)
+Theorem C01_other_market_refused : forall w ms mid id,
+  in_market ms mid id = false ->
+  (forall admin a b e, In id (a ++ b) -> mstep w ms (MSettle mid admin a b e) = (ms, false)) /\
+  (forall seller ids total flat cfee, In id ids -> mstep w ms (MFillBids mid seller ids total flat cfee) = (ms, false)) /\
+  (forall buyer ids tp fees cfee, In id ids -> mstep w ms (MFillAsks mid buyer ids tp fees cfee) = (ms, false)).
+Proof.
+  intros w ms mid id H. split; [|split].
+  - intros admin a b e Hin. exact (foreign_order_refused w ms mid admin a b e id Hin H).
+  - intros seller ids total flat cfee Hin. exact (foreign_order_refused_fill_bids w ms mid seller ids total flat cfee id Hin H).
+  - intros buyer ids tp fees cfee Hin. exact (foreign_order_refused_fill_asks w ms mid buyer ids tp fees cfee id Hin H).
+Qed.
+Print Assumptions C01_other_market_refused.
+
+(** The exchange's share is the rounded-up share of the TOTAL of the collected settlement fees
+    per denom, whatever the number of payers (one payer or forty): after an accepted market
+    settlement the fee collector has gained exactly [exchange_split T split] and the market
+    [T - exchange_split T split], T = sum over ALL reported fills of their fees in that denom
+    (for a fee collector / market account that is not itself a party). *)
+Theorem C01_share_on_total_for_any_number_of_payers : forall w ms mid admin a b e ms',
+  store_ok (st_orders (ms_st ms)) ->
+  mrun_op w ms (MSettle mid admin a b e) = Ok ms' ->
+  exists m asks bids r s,
+    let cfg := cfg_of w m (ms_params ms) in
+    lookup (ms_markets ms) mid = Some m /\
+    get_orders (st_orders (ms_st ms)) true a None = Ok asks /\
+    get_orders (st_orders (ms_st ms)) false b None = Ok bids /\
+    build asks bids (Ok r) = Ok s /\
+    (mk_addr m <> w_feecol w ->
+     forall d, let T := sumz (fun f => amount_of (fo_fees f) d) (fills_of s) in
+       ((forall f, In f (fills_of s) -> o_owner (fo_order f) <> w_feecol w) ->
+        aget (st_bal (ms_st ms')) (w_feecol w) d =
+        aget (st_bal (ms_st ms)) (w_feecol w) d + exchange_split T (get_split cfg d)) /\
+       ((forall f, In f (fills_of s) -> o_owner (fo_order f) <> mk_addr m) ->
+        aget (st_bal (ms_st ms')) (mk_addr m) d =
+        aget (st_bal (ms_st ms)) (mk_addr m) d + (T - exchange_split T (get_split cfg d)))).
+Proof. exact msettle_fee_shares. Qed.
+Print Assumptions C01_share_on_total_for_any_number_of_payers.
+
+(** An accepted market settlement passed every send restriction: no recipient of a transfer is a
+    blocked (module) account, no sender is sanctioned, and every (from, to, coins) the bank sees
+    is allowed by the marker rules with the market admin as transfer agent. *)
+Theorem C01_settlement_passed_send_restrictions : forall w ms mid admin a b e ms',
+  mrun_op w ms (MSettle mid admin a b e) = Ok ms' ->
+  exists m asks bids s,
+    let cfg := cfg_of w m (ms_params ms) in
+    lookup (ms_markets ms) mid = Some m /\
+    get_orders (st_orders (ms_st ms)) true a None = Ok asks /\
+    get_orders (st_orders (ms_st ms)) false b None = Ok bids /\
+    build asks bids (match asks with x :: _ => ratio_lookup cfg (o_pd x) | [] => Err end) = Ok s /\
+    close cfg (ms_st ms) s = Ok (ms_st ms') /\
+    (forall t e0, In t (s_transfers s) -> In e0 (t_out t) -> mem (fst e0) (w_blocked w) = false) /\
+    (forall from to c, In (from, to, c) (flat_map transfer_sends (s_transfers s) ++ fee_sends cfg (s_fee_inputs s)) ->
+       send_allowed w (ms_sanctioned ms) (Some admin) from to c = true /\ mem from (ms_sanctioned ms) = false).
+Proof. exact settle_needs_allowed_sends. Qed.
+Print Assumptions C01_settlement_passed_send_restrictions.
+
+(** ** At most one order is filled in part, and what depends on the order of the ids (Proofs/OrderDep.v)
+
+    [short s o]: order [o] of the request is reported with fewer assets than it has. *)
+Theorem C01_at_most_one_partial : forall asks bids lk s,
+  build asks bids lk = Ok s -> NoDup (map o_id (asks ++ bids)) ->
+  (* every order of the request is reported, with some and at most all of its assets *)
+  (forall o, In o (asks ++ bids) ->
+     exists f, In f (fills_of s) /\ o_id (fo_order f) = o_id o /\ o_ask (fo_order f) = o_ask o /\
+       o_owner (fo_order f) = o_owner o /\ o_ad (fo_order f) = o_ad o /\ o_pd (fo_order f) = o_pd o /\
+       0 < o_assets (fo_order f) <= o_assets o) /\
+  (* at most one is reported with fewer assets than it has *)
+  (forall o1 o2, In o1 (asks ++ bids) -> In o2 (asks ++ bids) ->
+     (exists f, In f (fills_of s) /\ o_id (fo_order f) = o_id o1 /\ o_assets (fo_order f) <> o_assets o1) ->
+     (exists f, In f (fills_of s) /\ o_id (fo_order f) = o_id o2 /\ o_assets (fo_order f) <> o_assets o2) ->
+     o1 = o2) /\
+  (* that one allows it, is the LAST of its list, and the rest of it is what stays in the store *)
+  (forall o, In o (asks ++ bids) ->
+     (exists f, In f (fills_of s) /\ o_id (fo_order f) = o_id o /\ o_assets (fo_order f) <> o_assets o) ->
+     o_partial o = true /\ (exists pre, asks = pre ++ [o] \/ bids = pre ++ [o]) /\
+     exists unf f, s_left s = Some unf /\ s_partial s = Some f /\ In f (fills_of s) /\
+       o_id (fo_order f) = o_id o /\ o_id unf = o_id o /\
+       0 < o_assets (fo_order f) < o_assets o /\ o_assets unf = o_assets o - o_assets (fo_order f)) /\
+  (* nothing left over: every order is reported with all its assets *)
+  (s_left s = None -> forall o, In o (asks ++ bids) ->
+     ~ (exists f, In f (fills_of s) /\ o_id (fo_order f) = o_id o /\ o_assets (fo_order f) <> o_assets o)).
+Proof. exact build_at_most_one_partial. Qed.
+Print Assumptions C01_at_most_one_partial.
+
+(** FillBids and FillAsks never split an order: every listed order is gone afterwards, every other
+    order is untouched. *)
+Theorem C01_fills_never_split :
+  (forall cfg st seller ids total flat st',
+     store_ok (st_orders st) -> fill_bids cfg st seller ids total flat = Ok st' ->
+     (forall id, In id ids -> find_order (st_orders st') id = None) /\
+     (forall id, ~ In id ids -> find_order (st_orders st') id = find_order (st_orders st) id)) /\
+  (forall cfg st buyer ids total_price fees st',
+     store_ok (st_orders st) -> sorted fees -> fill_asks cfg st buyer ids total_price fees = Ok st' ->
+     (forall id, In id ids -> find_order (st_orders st') id = None) /\
+     (forall id, ~ In id ids -> find_order (st_orders st') id = find_order (st_orders st) id)).
+Proof. exact (conj fill_bids_never_splits fill_asks_never_splits). Qed.
+Print Assumptions C01_fills_never_split.
+
+(** WHICH side is split, and by HOW MUCH, does not depend on the order of the ids: it is the side
+    with more assets in total, by the difference of the totals.  The order of the ids only decides
+    which order is the last of that list (and so whether the settlement is accepted at all). *)
+Theorem C01_partial_side : forall asks bids lk s,
+  build asks bids lk = Ok s -> NoDup (map o_id (asks ++ bids)) ->
+  let SA := sumz o_assets asks in let SB := sumz o_assets bids in
+  match s_left s with
+  | None => SA = SB
+  | Some unf =>
+      (o_ask unf = true /\ SB < SA /\ o_assets unf = SA - SB /\
+       exists pre o, asks = pre ++ [o] /\ o_id o = o_id unf) \/
+      (o_ask unf = false /\ SA < SB /\ o_assets unf = SB - SA /\
+       exists pre o, bids = pre ++ [o] /\ o_id o = o_id unf)
+  end.
+Proof. exact build_partial_side. Qed.
+Print Assumptions C01_partial_side.
+
+(** Exactly what is order-dependent.  The same orders in two orderings, both accepted, nothing
+    split in the first: nothing is split in the second; every bid is reported identically; with
+    L = the surplus, TA = the assets sold, R = what the floor shares leave over (0 <= R < number of
+    asks), every ask is paid its price + its floor share + a remainder part e (0 <= e <= max share 1,
+    e <= R) in both, so that the two settlements pay the same ask amounts that differ by at most R
+    units; and the asks together are paid the same, namely what the bids pay.
+    ([C01_order_dependence_with_split] below: the same with a split when the last ask and the last
+    bid are the same in both requests; [C01_order_dependence_is_real]: the remainder units do move,
+    and acceptance itself can depend on the order.) *)
+Theorem C01_order_dependence_exact : forall asks bids asks' bids' lk s s',
+  Permutation asks asks' -> Permutation bids bids' ->
+  NoDup (map o_id (asks ++ bids)) -> Forall valid_order asks -> Forall valid_order bids ->
+  build asks bids lk = Ok s -> build asks' bids' lk = Ok s' -> s_left s = None ->
+  s_left s' = None /\
+  let L := sumz o_price bids - sumz o_price asks in
+  let TA := sumz o_assets asks in
+  let R := L - sumz (fun o => floor_share L TA (o_assets o)) asks in
+  (forall f, In f (fills_of s) -> o_ask (fo_order f) = false -> In f (fills_of s')) /\
+  0 <= L /\ 0 <= R < Z.of_nat (length asks) /\
+  (forall t, t = s \/ t = s' -> forall f, In f (fills_of t) -> o_ask (fo_order f) = true ->
+     In (fo_order f) asks /\
+     exists e, fo_price f = o_price (fo_order f) + floor_share L TA (o_assets (fo_order f)) + e /\
+               0 <= e <= Z.max (floor_share L TA (o_assets (fo_order f))) 1 /\ e <= R) /\
+  (forall f f', In f (fills_of s) -> In f' (fills_of s') -> o_ask (fo_order f) = true ->
+     o_id (fo_order f) = o_id (fo_order f') ->
+     fo_order f = fo_order f' /\ Z.abs (fo_price f - fo_price f') <= R /\
+     Z.abs (fo_price f - fo_price f') < Z.of_nat (length asks)) /\
+  sumz (ask_part fo_price) (fills_of s) = sumz (ask_part fo_price) (fills_of s') /\
+  sumz (ask_part fo_price) (fills_of s) = sumz o_price bids.
+Proof. exact build_order_dependence. Qed.
+Print Assumptions C01_order_dependence_exact.
+
+Theorem C01_order_dependence_with_split : forall asks bids asks' bids' lk s s' d,
+  Permutation asks asks' -> Permutation bids bids' ->
+  NoDup (map o_id (asks ++ bids)) -> Forall valid_order asks -> Forall valid_order bids ->
+  build asks bids lk = Ok s -> build asks' bids' lk = Ok s' ->
+  last asks d = last asks' d -> last bids d = last bids' d ->
+  s_left s' = s_left s /\
+  option_map fo_order (s_partial s') = option_map fo_order (s_partial s) /\
+  exists FA FB FA' FB', view asks bids s FA FB /\ view asks' bids' s' FA' FB' /\
+    Permutation FA FA' /\ Permutation FB FB' /\ dep_concl s s' FA FB.
+Proof. exact build_order_dependence_split. Qed.
+Print Assumptions C01_order_dependence_with_split.
+
+(** The dependence is real: four asks (5,5,1,1 assets) and a surplus of 7: listed 1,2,3,4 they are
+    paid 14,13,2,2, listed 3,1,2,4 they are paid 14,12,3,2 (ask 2 loses the unit ask 3 gains); and
+    two asks of which only one may be split: accepted when that one is listed last, refused
+    otherwise. *)
+Theorem C01_order_dependence_is_real :
+  (exists asks asks' bids s s' f f',
+     Permutation asks asks' /\ NoDup (map o_id (asks ++ bids)) /\
+     build asks bids (Ok None) = Ok s /\ build asks' bids (Ok None) = Ok s' /\
+     s_left s = None /\ s_left s' = None /\
+     In f (fills_of s) /\ In f' (fills_of s') /\ fo_order f = fo_order f' /\
+     o_ask (fo_order f) = true /\ fo_price f <> fo_price f') /\
+  (exists asks asks' bids s,
+     Permutation asks asks' /\ NoDup (map o_id (asks ++ bids)) /\
+     build asks bids (Ok None) = Ok s /\ s_left s <> None /\ build asks' bids (Ok None) = Err).
+Proof. exact order_dependence_is_real. Qed.
+Print Assumptions C01_order_dependence_is_real.
+
 (* NOT PROVED (statements kept visible):
 
    Theorem C01_history_holds : over every history starting with an empty order store and no holds,
@@ -347,9 +585,13 @@ Print Assumptions C01_history.
      closeSettlement releases; "hold = obligations of the open orders" as a state invariant is
      property C02 (its own model Exchange/Holds.v and proofs).
 
-   The refinement is about the bank / hold semantics as transcribed in Exchange/Settle.v (tied to the
-   real modules by the correspondence run only); restricted denoms, sanctions, quarantine are
-   outside this model. *)
+   The refinement is about the bank / hold semantics as transcribed in Exchange/Settle.v and the
+   sanction / marker send restrictions as transcribed in Exchange/SettleMulti.v (active markers
+   without required attributes, deny lists or bypass accounts), tied to the real modules by the
+   correspondence run only; the full restriction rules are C04 / C06 / C07.
+
+   Not modelled: a filler of FillBids / FillAsks spelling its own address in another case than its
+   orders do (the handlers compare the bech32 strings; findings/C01.md, observation). *)
 
 (** Non-vacuity: two asks (the second one split), one bid paying more than asked, a 100:3 seller
     ratio.  10 + 15 assets are sold; the surplus of 20 is shared 8 : 12 by assets; 15 assets with
